@@ -534,5 +534,15 @@ func udpOverflow(m *dns.Msg, limit int) bool {
 	if uncompressed.Len() <= limit {
 		return false
 	}
-	return m.Len() > limit
+	if m.Len() <= limit {
+		return false
+	}
+	// Msg.Len is an estimate, and for a compressed message an upper bound
+	// rather than the packed size: it can exceed the limit for a reply
+	// that fits once packed. The byte-built path measures real bytes, so
+	// the same cached answer would go out whole there and truncated here.
+	// Only replies within a few octets of the limit get this far; pack
+	// those once and compare what would actually be sent.
+	packed, err := m.Pack()
+	return err != nil || len(packed) > limit
 }
